@@ -23,6 +23,7 @@ DEFECTS = {
     "dns": ("fixes/C11-dns-forward-sender-check.diff", ["cmd120:unauth:reached-client", "cmd120:nonparty:reached-client",
                                                          "cmd121:unauth:reached-client", "cmd121:nonparty:reached-client"]),
     "notify": ("fixes/C11-c2c-notify-unauthenticated.diff", ["cmd102:unauth:notify-sender"]),
+    "dnsresp": ("fixes/C11-dns-answer-from-target-only.diff", ["cmd120-resp:any-connection-answers", "cmd121-resp:any-connection-answers"]),
 }
 
 # the fixed world of the systematic sweep: clients 1..4 (4 is offline); client 0 = "no client"
@@ -37,10 +38,16 @@ CONNS = [("unknown", 0), ("fresh", 0), ("pending", 1), ("auth", 4), ("auth", 3),
 
 
 def step(conn, who, cmd, **kw):
+    """a command packet on a connection; conn="auth": the long-lived connection #who (initially client #who's)"""
     s = {"conn": conn, "who": who, "cmd": cmd, "resp": False, "obj": -2, "tgt": 0, "dir": 0, "sent": 0, "recv": 0,
          "valid": True, "claim": 0, "ans": 0}
     s.update(kw)
     return s
+
+
+def event(ev, ci, as_=0):
+    """a registry event between commands: connection #ci re-authenticates as client #as_ / leaves the registry"""
+    return {"ev": ev, "ci": ci, "as": as_, "conn": "", "who": 0, "cmd": 0, "claim": 0}
 
 
 def variants(cmd):
@@ -113,7 +120,20 @@ def random_cases(rng, n, handled):
         ncode, nd = len(w["codes"]), len(w["domains"])
         steps = []
         alive = set(i + 1 for i, o in enumerate(w["online"]) if o)
+        bound = dict((i, i) for i in alive)       # long-lived connection -> client it is registered as
         for _ in range(rng.randrange(4, 16)):
+            if rng.random() < 0.12:
+                # the identity of a connection changes between commands (never two connections for one client: C07's business)
+                ci = rng.randrange(1, nc + 1)
+                free = [c for c in range(1, nc + 1) if c not in bound.values() or bound.get(ci) == c]
+                if ci in bound and rng.random() < 0.4:
+                    steps.append(event("remove", ci))
+                    del bound[ci]
+                elif free and ci in alive:
+                    c = rng.choice(free)
+                    steps.append(event("reauth", ci, c))
+                    bound[ci] = c
+                continue
             cmd = rng.choice(handled + [SOCKS, TRAFFIC, MAP_DEL, MAP_GET, CODE_ACT, CODE_GEN, DNS_RESOLVE, DNS_QUERY] + ([NOTIFY] * 3 if aux else []))
             r = rng.random()
             if r < 0.12:
@@ -132,7 +152,8 @@ def random_cases(rng, n, handled):
             if cmd == DISCONNECT and conn == "auth":
                 if who not in alive or rng.random() < 0.6:
                     continue
-                alive.discard(who)
+                alive.discard(who)     # CloseConnection: the stream is gone, the connection cannot be registered again
+                bound.pop(who, None)
             steps.append(step(conn, who, cmd, **kw))
             # object counters as the harness will number them (only used to aim later steps at fresh objects)
             if cmd == CODE_GEN:
@@ -142,6 +163,44 @@ def random_cases(rng, n, handled):
             elif cmd == DOM_CREATE:
                 nd += 1
         cases.append(dict(w, mode="case", aux=aux, steps=steps, tag="random"))
+    return cases
+
+
+def history_cases(handled, aux_cmds):
+    """ONE session/executor per case: connection #1 sends commands as client 1, then its registry identity changes
+    (re-authenticates as client 4 / leaves the registry / leaves and comes back as client 4 / client 3's connection takes
+    over identity 1 after connection #1 left), then the whole command alphabet is sent again on the same connection id.
+    The predicate is evaluated against the identity the registry holds at each dispatch."""
+    warm = [step("auth", 1, DOM_LIST), step("auth", 1, MAP_LIST), step("auth", 1, CONFIG_GET), step("auth", 1, CODE_LIST),
+            step("auth", 3, DOM_LIST), step("auth", 2, DOM_LIST)]
+    changes = {
+        "reauth": ([event("reauth", 1, 4)], 1),
+        "remove": ([event("remove", 1)], 1),
+        "remove-reauth": ([event("remove", 1), event("reauth", 1, 4)], 1),
+        "takeover": ([event("remove", 1), event("remove", 3), event("reauth", 3, 1)], 3),
+        "swap": ([event("remove", 1), event("remove", 2), event("reauth", 1, 2), event("reauth", 2, 1)], 1),
+    }
+    alphabet = sorted(set(handled) | set(aux_cmds))
+    cases = []
+    for name, (evs, ci) in changes.items():
+        probe = []
+        for cmd in alphabet:
+            if cmd == DISCONNECT:
+                continue
+            for var in variants(cmd):
+                if cmd in MAP_CMDS and var["obj"] not in (0, 3, 4, -1):
+                    continue
+                if cmd in (DNS_RESOLVE, DNS_QUERY, NOTIFY) and var["tgt"] not in (0, 1, 2):
+                    continue
+                probe.append(step("auth", ci, cmd, claim=1 if len(probe) % 3 == 0 else 0, **var))
+        # destructive commands last; chunks share the warm-up and the identity change
+        probe.sort(key=lambda s: s["cmd"] in (MAP_DEL, DOM_DEL, CODE_ACT, TRAFFIC))
+        for i in range(0, len(probe), 20):
+            steps = copy.deepcopy(warm) + copy.deepcopy(evs) + copy.deepcopy(probe[i:i + 20])
+            # the other long-lived connections keep working with their own identity
+            steps += [step("auth", 2, DOM_LIST), step("auth", 2, MAP_LIST), step("auth", 3, DOM_DEL, obj=1), step("auth", ci, DISCONNECT),
+                      step("auth", ci, DOM_LIST), step("auth", ci, MAP_LIST)]
+            cases.append(dict(copy.deepcopy(WORLD), mode="case", aux=True, steps=steps, tag="history:" + name))
     return cases
 
 
@@ -169,6 +228,7 @@ DETECT = dict(copy.deepcopy(WORLD), mode="case", aux=True, tag="detect", steps=[
     step("fresh", 0, TRAFFIC, obj=1, sent=5, recv=5),
     step("auth", 3, DNS_RESOLVE, tgt=2),                    # client 3 has no mapping towards client 2
     step("pending", 1, NOTIFY, tgt=2),
+    step("auth", 1, DNS_RESOLVE, tgt=2, ans=3),            # client 3 answers the request that was forwarded to client 2
 ])
 
 
@@ -178,7 +238,7 @@ def detect_flags(binary):
         raise vlib.Broken("C11 harness world setup failed", o["setup_err"])
     st = o["steps"]
     return {"socks": not st[0]["deliveries"], "traffic": st[1]["mappings"] == o["init"]["mappings"],
-            "dns": not st[2]["deliveries"], "notify": not st[3]["deliveries"]}
+            "dns": not st[2]["deliveries"], "notify": not st[3]["deliveries"], "dnsresp": not st[4]["spoofed"]}
 
 
 def case_value(case, out, flags):
@@ -188,10 +248,14 @@ def case_value(case, out, flags):
         socks[i] = m["proto"] == "socks"
     init = out["init"]
     world = [[[m[0], m[1], m[2], socks.get(m[0], False), m[3], m[4]] for m in init["mappings"]],
-             [list(c) for c in init["codes"]], [list(d) for d in init["domains"]], list(init["online"])]
+             [list(c) for c in init["codes"]], [list(d) for d in init["domains"]], list(init["online"]), [list(b) for b in init["bind"]]]
     seen = {"m": len(init["mappings"]), "c": len(init["codes"]), "d": len(init["domains"])}
     steps = []
     for s, o in zip(case["steps"], out["steps"]):
+        obs = [o["ok"], o["mappings"], o["codes"], o["domains"], o["online"], o["disc_m"], o["disc_c"], o["disc_d"], o["deliveries"], o["bind"]]
+        if s.get("ev"):
+            steps.append([4 if s["ev"] == "reauth" else 5, s["ci"], s["as"], 0, None, None, 0, 0, 0, 0, 0, obs])
+            continue
         kind = "c" if s["cmd"] == CODE_ACT else "d" if s["cmd"] == DOM_DEL else "m"
         if s["obj"] == -2:
             obj = None
@@ -200,7 +264,6 @@ def case_value(case, out, flags):
         else:
             obj = [s["obj"]]
         tgt = None if s["tgt"] == 0 else [999] if s["tgt"] < 0 or s["tgt"] > case["nclients"] else [s["tgt"]]
-        obs = [o["ok"], o["mappings"], o["codes"], o["domains"], o["online"], o["disc_m"], o["disc_c"], o["disc_d"], o["deliveries"]]
         steps.append([KIND[s["conn"]], s["who"], s["cmd"], s["resp"], obj, tgt, s["dir"], s["sent"], s["recv"], s["valid"],
                       s["claim"] if 0 < s["claim"] <= case["nclients"] else 0, obs])
         for key, rows in (("m", o["mappings"]), ("c", o["codes"]), ("d", o["domains"])):
@@ -210,7 +273,7 @@ def case_value(case, out, flags):
 
 
 def project(o):
-    return [o["ok"], o["mappings"], o["codes"], o["domains"], o["online"], o["disc_m"], o["disc_c"], o["disc_d"], o["deliveries"]]
+    return [o["ok"], o["mappings"], o["codes"], o["domains"], o["online"], o["disc_m"], o["disc_c"], o["disc_d"], o["deliveries"], o["bind"]]
 
 
 def honest_twin(case):
@@ -219,6 +282,10 @@ def honest_twin(case):
         s["claim"] = 0
     t["tag"] = "twin"
     return t
+
+
+def twin_wanted(c):
+    return (c.get("tag") in ("sweep", "random", "corpus") or c.get("tag", "").startswith("history")) and any(s["claim"] for s in c["steps"])
 
 
 def load_corpus():
@@ -272,9 +339,10 @@ def run(ctx, only_cases=None):
         cases = load_corpus()
         cases += systematic_cases(handled, [NOTIFY])
         cases += unhandled_cases(ctx.rng, handled, 72 if thorough else 24)
+        cases += history_cases(handled, [NOTIFY])
         cases += answer_cases()
         cases += random_cases(ctx.rng, 2500 if thorough else 250, [h for h in HANDLED])
-    twins = [honest_twin(c) for c in cases if c.get("tag") in ("sweep", "random", "corpus") and any(s["claim"] for s in c["steps"])]
+    twins = [honest_twin(c) for c in cases if twin_wanted(c)]
     malformed = malformed_cases(ctx.rng, handled, 240 if thorough else 72) if only_cases is None else []
     outs = vlib.run_harness(binary, cases + twins + malformed, timeout=1500)
     for c, o in zip(cases + twins + malformed, outs):
@@ -303,7 +371,7 @@ def run(ctx, only_cases=None):
     ti = 0
     nclaim = 0
     for c, o in zip(cases, couts):
-        if not (c.get("tag") in ("sweep", "random", "corpus") and any(s["claim"] for s in c["steps"])):
+        if not twin_wanted(c):
             continue
         to = touts[ti]
         ti += 1
@@ -356,9 +424,15 @@ def run(ctx, only_cases=None):
         prev = o["init"]
         for s, so in zip(c["steps"], o["steps"]):
             nsteps += 1
-            h = json.dumps([s["conn"], s["who"], s["cmd"], s["resp"], s["obj"], s["tgt"], s["dir"], s["valid"], s["claim"], project(prev)[1:5]])
+            if s.get("ev"):
+                dist["registry_events"] = dist.get("registry_events", 0) + 1
+                prev = so
+                continue
+            if so.get("x", 0) != (s["who"] if s["conn"] == "auth" else 0):
+                dist["commands_after_identity_change"] = dist.get("commands_after_identity_change", 0) + 1
+            h = json.dumps([s["conn"], s["who"], s["cmd"], s["resp"], s["obj"], s["tgt"], s["dir"], s["valid"], s["claim"], project(prev)[1:5], prev["bind"]])
             distinct.add(h)
-            changed = project(so)[1:5] != project(prev)[1:5]
+            changed = project(so)[1:5] != project(prev)[1:5] or so["bind"] != prev["bind"]
             if so["ok"] or changed or so["deliveries"]:
                 nontrivial.add(h)
             dist["steps_by_conn"][s["conn"]] = dist["steps_by_conn"].get(s["conn"], 0) + 1
